@@ -155,7 +155,8 @@ class NexusFitter(object):
 
     @property
     def fixed_parameters(self):
-        return self._fixed_pars.copy()
+        # a fixed parameter can still be assigned a new value: report the value it holds now, not the one it had when it was fixed
+        return dict(self.get_fit_parameter_values(list(self._fixed_pars)))
 
     @property
     def limited_parameters(self):
